@@ -198,6 +198,14 @@ func (e *Engine) mergeValue(c *Term, a, b Value) Value {
 			return x
 		}
 		if x.S != y.S {
+			// an abstract integer cell merged with a plain limb cell (path that never wrote it): keep the
+			// integer sort, reading the limb as its unsigned value
+			if x.S.K == SInt && y.S.K == SBV {
+				return e.st.Ite(c, x, e.st.BV2Nat(y))
+			}
+			if y.S.K == SInt && x.S.K == SBV {
+				return e.st.Ite(c, e.st.BV2Nat(x), y)
+			}
 			return &Poison{Why: fmt.Sprintf("merge of sorts %v and %v", x.S, y.S)}
 		}
 		return e.st.Ite(c, x, y)
